@@ -201,7 +201,8 @@ from . import tz_replay
 EXT_OUTSIDE = "zones extended by a POSIX footer (extended_: 400-year shift, YearShift/TimeLocal) - year-based code is outside the ordinal abstraction"
 EXT_COVERED = ("zones extended by a POSIX footer: what is decided is the reduction of every instant / civil second beyond the table to the table's last "
                "400 years (periodic continuation, exact saturation); that the 401 generated years follow the footer is decided per rule by the TransOffset jobs of C01; "
-               "the year-stepping loop of ExtendTransitions itself (jan1_time / weekday / leap bookkeeping over 401 iterations) is not encoded")
+               "the year loop of ExtendTransitions is decided inductively in C01 (harness/tz_extend.py); NOT decided: that the generated table's last 400 years are the "
+               "right ones to shift into when rule instants spill over a calendar-year boundary or when Load appends its 2^31-1 sentinel after the generated years")
 def run_property(prop, tier, jobs, kinds, text, bounds, outside=(), extra_assumptions=(), ext=False):
     """jobs: list of (name, fn, kwargs); kinds: job-name prefix -> replay kind"""
     rep = common.Report(prop, tier, "proof")
@@ -215,6 +216,12 @@ def run_property(prop, tier, jobs, kinds, text, bounds, outside=(), extra_assump
                 form = kw["form"]
                 w = tz_replay.check_transoffset(fobj["model"], form)
                 if w: rep.violation("TransOffset:%s:%s" % (form, json.dumps(fobj["model"], sort_keys=True)[:200]), w + "  [%s]" % fobj["desc"], {"transoffset": fobj["model"], "form": form})
+                else: rep.spurious.append({"job": r["name"], "obligation": fobj["desc"], "model": fobj["model"]})
+                continue
+            if r["name"].startswith("ExtendTransitions") or r["name"].startswith("calendar"):
+                # the model is over uninterpreted calendar / rule functions: confirm on a panel of concrete footers loaded natively
+                w = tz_replay.check_footer_panel() if r["name"].startswith("ExtendTransitions") else None
+                if w: rep.violation("footer-panel:" + w[:120], w + "  [%s: %s]" % (r["name"], fobj["desc"]), {"footer_panel": True})
                 else: rep.spurious.append({"job": r["name"], "obligation": fobj["desc"], "model": fobj["model"]})
                 continue
             z = model_to_zone(fobj["model"], kw["N"], kw["T"])
@@ -256,6 +263,7 @@ def run_property(prop, tier, jobs, kinds, text, bounds, outside=(), extra_assump
 
 def replay_case(case):
     if "transoffset" in case: return tz_replay.check_transoffset(case["transoffset"], case["form"])
+    if case.get("footer_panel"): return tz_replay.check_footer_panel()
     return tz_replay.check_case(case["zone"], case.get("kind") or "break") or \
            next((w for w in (tz_replay.check_case(case["zone"], k) for k in ("make", "roundtrip", "order", "next", "prev")) if w), None) or \
            tz_replay.check_ub(case["zone"])
